@@ -495,10 +495,7 @@ Section World.
                             (tvals (fun k => pget k (c_est cl))) :: lg1 in
           let oos := w_oos w || msg_oos valid (bdefs s) (truth sv1) ss in
           let '(b', evs) := be_query valid (bdefs s) (truth sv1) ss in
-          let '(cm', _) := recv_all (Some (c_map cl)) (pg sv1)
-                             ((fix upto (l : list revent) : list revent :=
-                                 match l with [] => [] | RC TgOther :: _ => [] | e :: r => e :: upto r end) evs) in
-          let '(_, p') := recv_all (Some (c_map cl)) (pg sv1) evs in
+          let '(cm', p') := recv_all (Some (c_map cl)) (pg sv1) evs in
           let cm2 := match cm' with Some m => m | None => c_map cl end in
           let fr := frames evs in
           let lg3 := log_if (negb (is_nil_l fr)) (EvTold c fr) lg2 in
